@@ -996,3 +996,108 @@ func answersOnlyWithFocus(p *core.Program, g *core.FuncDecl, answer bool) bool {
 	gw.WalkBody(g.Decl.Body, nil)
 	return okAll && some
 }
+
+// PodReplacementInvalidates is C15-upd (found as defect F22). The verdict cache is keyed by (namespace, owner, hash of the
+// labels) of the two pods, and is deliberately not cleared when a pod is inserted. But a pod object that REPLACES an
+// existing one (same namespace and name: an update in place) may differ from it in what the key does not contain - its
+// container ports, by which the named ports of policy rules are resolved. So wherever the engine stores a pod into its
+// pods map, a comma-ok lookup of the map under the same key must guard a call that removes cached results (a method of
+// the cache that reaches Remove / Purge of the lru), before the store. The fake ingress-controller pod (never cached: it
+// has no owner) is the one reviewed exception.
+func PodReplacementInvalidates(p *core.Program, r *core.Report, rule string) {
+	pods := p.Field(core.PkgEval, "PolicyEngine", "podsMap")
+	if pods == nil {
+		r.Lost(rule, "PolicyEngine.podsMap")
+		return
+	}
+	// methods of evalCache that remove cached results (transitively)
+	inval := map[*types.Func]bool{}
+	for changed := true; changed; {
+		changed = false
+		for _, m := range p.Methods(core.PkgEval, "evalCache") {
+			if inval[m.Obj] {
+				continue
+			}
+			info := m.Pkg.TypesInfo
+			ast.Inspect(m.Decl.Body, func(n ast.Node) bool {
+				c, ok := n.(*ast.CallExpr)
+				if !ok {
+					return true
+				}
+				fn := core.Callee(info, c)
+				if fn == nil {
+					return true
+				}
+				if inval[fn] || ((fn.Name() == "Remove" || fn.Name() == "Purge") && fn.Pkg() != nil && strings.Contains(fn.Pkg().Path(), "golang-lru")) {
+					if !inval[m.Obj] {
+						inval[m.Obj] = true
+						changed = true
+					}
+				}
+				return true
+			})
+		}
+	}
+	exceptions := map[string]string{
+		"AddPodByNameAndNamespace": "stores the fake ingress-controller pod, which has no owner: pairs with it are never cached, and the name is reserved",
+	}
+	n := 0
+	for _, fd := range p.FuncsIn(core.PkgEval) {
+		info := fd.Pkg.TypesInfo
+		var stores []*ast.AssignStmt
+		ast.Inspect(fd.Decl.Body, func(nd ast.Node) bool {
+			if as, ok := nd.(*ast.AssignStmt); ok && len(as.Lhs) == 1 {
+				if ix, isIx := ast.Unparen(as.Lhs[0]).(*ast.IndexExpr); isIx && core.FieldOf(info, ix.X) == pods && as.Tok == token.ASSIGN {
+					stores = append(stores, as)
+				}
+			}
+			return true
+		})
+		if len(stores) == 0 {
+			continue
+		}
+		// comma-ok lookups of the pods map: ok variable -> key text
+		okVars := map[types.Object]string{}
+		ast.Inspect(fd.Decl.Body, func(nd ast.Node) bool {
+			if as, ok := nd.(*ast.AssignStmt); ok && len(as.Lhs) == 2 && len(as.Rhs) == 1 {
+				if ix, isIx := ast.Unparen(as.Rhs[0]).(*ast.IndexExpr); isIx && core.FieldOf(info, ix.X) == pods {
+					if id, isID := as.Lhs[1].(*ast.Ident); isID && id.Name != "_" {
+						okVars[info.ObjectOf(id)] = Unfold(info, fd.Decl.Body, ix.Index)
+					}
+				}
+			}
+			return true
+		})
+		// invalidating calls that run under such an ok, with the key they are guarded by
+		guarded := map[string]token.Pos{}
+		w := facts.NewWalker(info)
+		w.OnExpr = func(e ast.Expr, f facts.Formula) {
+			c, ok := e.(*ast.CallExpr)
+			if !ok || !inval[core.Callee(info, c)] {
+				return
+			}
+			for o, key := range okVars {
+				if v, isVar := o.(*types.Var); isVar && facts.Entails(f, facts.Atom("b:"+w.PathOfVar(v))) {
+					if _, seen := guarded[key]; !seen {
+						guarded[key] = c.Pos()
+					}
+				}
+			}
+		}
+		w.WalkBody(fd.Decl.Body, nil)
+		for _, st := range stores {
+			n++
+			key := Unfold(info, fd.Decl.Body, ast.Unparen(st.Lhs[0]).(*ast.IndexExpr).Index)
+			c := fd.Key() + ": a pod object that replaces an existing one drops the cached results of its workload"
+			if why, ok := exceptions[core.RefName(fd.Obj)]; ok {
+				r.Add(rule, c, p.Pos(st.Pos()), core.Excepted, why)
+				continue
+			}
+			at, ok := guarded[key]
+			r.Check(ok && at < st.Pos(), rule, c, p.Pos(st.Pos()), "a lookup of the pods map under the same key guards a call that removes cached results, before the store",
+				"the pod is stored under "+key+" without removing what the cache holds for the object it may replace: the cache key holds the labels of a pod but not its container ports, so after an in-place update with other ports a named port of a policy rule is answered from the verdict computed for the replaced object")
+		}
+	}
+	r.RuleCounts[rule] = n
+	r.Floor(rule, 2)
+}
